@@ -281,6 +281,6 @@ def judge (kind : String) (template goal instances : Term) (sols : List (List (N
       if matchAll outs got then "ok"
       else
         let want := outs.map fun c => match c with | [some s] => s | [none] => "(no answer)" | _ => "(one of several orders)"
-        s!"FAIL groups differ from the classes of variant witnesses: want {want}"
+        s!"FAIL answers differ from the groups ISO prescribes (classes of solutions under variant witnesses): want {want}"
 
 end PrologVerif.CollectSpec
